@@ -150,13 +150,14 @@ func c11model(c *Ctx, only map[string]string) {
 		params = append(params, [2]int{3, 6}, [2]int{2, 8})
 	}
 	streams := 6
+	coarse := 4 // further streams that answer with three values only: ties, so that the tie-breaks of the heuristics run
 	if c.Thorough {
 		streams = 24
 	}
 	runs := 0
 	for _, pr := range params {
 		for hi, hist := range histories {
-			for sidx := 0; sidx <= streams; sidx++ {
+			for sidx := 0; sidx <= streams+coarse; sidx++ {
 				if done := verdicts["no-panic"].unk != ""; done {
 					break
 				}
@@ -176,6 +177,9 @@ func c11model(c *Ctx, only map[string]string) {
 						h := salt
 						for _, ch := range []byte(p.canon()) {
 							h = (h ^ uint64(ch)) * 1099511628211
+						}
+						if sidx > streams {
+							return float64(int(h%3) - 1) // −1, 0 or 1: many ties, also with zero
 						}
 						return float64(h%1000003) + 0.5
 					}
@@ -425,7 +429,7 @@ func c11model(c *Ctx, only map[string]string) {
 		case anyUnk != "":
 			c.Unk(ruleOf[k], cons, pos, "%s", anyUnk)
 		default:
-			c.OK(ruleOf[k], cons, pos, "holds after every operation of %d runs (%d histories × branching parameters × the geometric resolution and %d arbitrary resolutions of the heuristic comparisons)", runs, len(histories), streams)
+			c.OK(ruleOf[k], cons, pos, "holds after every operation of %d runs (%d histories × branching parameters × the geometric resolution, %d arbitrary resolutions of the heuristic comparisons and %d tie-prone ones)", runs, len(histories), streams, coarse)
 		}
 	}
 }
